@@ -49,11 +49,39 @@ CLAIMED = {
             "both sides, every message) and computes the expected continuation; the code must return the documented error kind, "
             "keep every observable unchanged and then produce exactly the failure-free bytes.",
             TLA + "model-derived fault enumeration replayed on the code (D1)"),
+    "C08": ("model_checking", "5 (C08)",
+            "The two endpoints are built with exactly one differing context item (prologue, one PSK, the pre-shared static "
+            "key of the peer on either side: another valid key / the right key with one bit flipped), or overwrite a PSK "
+            "with set_psk at any time; invariant MismatchNoChannel / OverwriteTakesEffect; the model predicts the failing "
+            "call and the code must fail there. Name mismatches with different primitives are outside the symbolic "
+            "evaluator (one primitive set per scenario).",
+            TLA + "mismatch configurations of the session model + scenario replay (D1)"),
     "C09": ("model_checking", "5 (C09)",
             "Counters are placed two below 2^64-1 (sender through the verif-hooks hook) and every interleaving of ok/failing "
             "reads/writes and explicit settings is explored; invariants StepsByOne, ExhaustedFails, ReservedUnused; the "
             "recording cipher flags any use of nonce 2^64-1 other than the REKEY input.",
             TLA + "edge-cover scenario replay at the top of the 64-bit range (D1) + recording cipher"),
+    "C10": ("exploration", "5 (C10)",
+            "The model is total, so a panic/abort/stall is an event no action explains. TLC supplies the boundary cases "
+            "(every Appendix-A cause at every field boundary, every call in every phase, key lengths, set_psk positions), "
+            "replayed under catch_unwind; arbitrary contents/lengths/names come from a random protocol-agnostic driver "
+            "with a stall watchdog. Exploration level: contents are sampled, not exhausted.",
+            TLA + "model-derived boundary scenarios + random driver under catch_unwind"),
+    "C11": ("model_checking", "5 (C11)",
+            "MC_StateMachine explores every call sequence over the full API alphabet (both endpoints, all phases, early "
+            "conversions, transport one-way rules) to a depth bound with a bound on failing calls, for all 38 patterns + psk "
+            "representatives; invariants Indicators, OutOfPhase, ConvertOnlyFinished, OneWayS; every edge replayed.",
+            TLA + "edge-cover scenario replay (D1)"),
+    "C12": ("model_checking", "5 (C12)",
+            "Complete enumeration of the finite build space (19 760 cases) with prerequisites derived from the token table "
+            "of the specification; late-PSK sessions show the error arises at the message that needs the PSK and set_psk "
+            "repairs it.",
+            TLA + "exhaustive enumeration replayed on the code (D1)"),
+    "C13": ("model_checking", "5 (C13)",
+            "Both directions: snow parses every name of the TLC-enumerated language (components and verbatim name compared; "
+            "ParseName o NameOf = id checked by TLC), and TLC judges (ParseName of spec/NoiseNames.tla) every outcome snow "
+            "produces on generic character-level edits and random near-miss strings.",
+            TLA + "grammar enumeration + TLC-judged parse records (D1 + D2)"),
     "C14": ("model_checking", "5 (C14)",
             "Lengths are computed by the model from the fields written (Framing invariant) and compared on every call; boundary "
             "payloads (0, max-fit, max-fit+1) and buffers one byte / one tag short of every field end.",
@@ -72,6 +100,22 @@ CLAIMED = {
             "RemoteStaticCorrect on every state; get_remote_static() compared with the model term after every call on all three "
             "state types for 32- and 65-byte keys, including after rejected reads and across both conversions.",
             TLA + "state invariant + per-call observable comparison (D1)"),
+    "C18": ("other", "5 (C18)",
+            "Only snow's own code at the primitive layer is decided: HMAC/HKDF as term rewriting over a raw hash, nonce "
+            "encodings and the AEAD law (encrypt equals the reference, decrypt inverts, 9 alteration classes rejected), "
+            "default REKEY, DH wrappers and key generation, for both resolvers. Bit-level correctness of the third-party "
+            "primitive crates for all inputs is numeric fidelity a TLA+ model cannot decide; they are the trusted base.",
+            TLA + "term-rewriting definition of HMAC/HKDF/AEAD law; trait-method differential against an independent evaluator"),
+    "C19": ("model_checking", "5 (C19)",
+            "For every failing read explored (3 read paths x alteration of tag / body / static-key field x buffer exact / "
+            "+8 / large x all ciphers x default and ring backends) the model lists the plaintexts at stake (LeakSet) and the "
+            "caller's pre-filled buffer must not contain any 8-byte run of them.",
+            TLA + "model-derived leak sets checked on replayed scenarios (D1)"),
+    "C20": ("model_checking", "5 (C20)",
+            "The specification is backend-free: every backend assignment {default, fallback(ring,default), "
+            "fallback(default,ring)}^2 must conform to the same terms (honest sessions + transport edges, incl. exact-size "
+            "buffers); FallbackResolver truth table enumerated completely with marker resolvers.",
+            TLA + "scenario replay under all backend assignments + exhaustive truth table"),
 }
 
 PENDING = {}
